@@ -66,6 +66,15 @@ def source_tab(ctx):
     vlib.proof_phase_extra(ctx, 'Properties_tab_source')
 
 
+# properties that rest on what install_gv writes into Policy::dispatch_data, the methods' slots_strides and the classes'
+# static v-table pointers: translators/installgv.py -> Gen/GenGv.v -> Properties_gv_source
+SOURCE_GV = ('C01', 'C04')
+
+
+def source_gv(ctx):
+    vlib.proof_phase_extra(ctx, 'Properties_gv_source')
+
+
 def main(pid, assumptions, level='proof', explanation=None):
     ctx = vlib.Ctx(pid)
     if ctx.replay:
@@ -82,6 +91,8 @@ def main(pid, assumptions, level='proof', explanation=None):
         source_reg(ctx)
     if pid in SOURCE_TAB:
         source_tab(ctx)
+    if pid in SOURCE_GV:
+        source_gv(ctx)
     res = coresuite.dispatch_suite(ctx.tier, ctx.seed)
     cov = coresuite.summarize(ctx, res, pid)
     if pid == 'C03':
